@@ -271,6 +271,16 @@ def compare_outputs(a, b, scale, graph_tol=0.011, exact=False):
     return None
 
 
+def survives_15_digits(prob):
+    """True if every number of the problem is unchanged by rounding to 15 significant digits (what a workbook cell keeps)."""
+    for rec in prob["streams"] + prob.get("utilities", []):
+        for k in UNITS:
+            v = rec.get(k)
+            if isinstance(v, float) and float("%.15g" % v) != v:
+                return False
+    return True
+
+
 def total_duty(prob):
     return 1.0 + sum(abs(s["heat_flow"]) for s in prob["streams"])
 
@@ -595,7 +605,10 @@ class C16(World):
                 return
             got = simplify_output(res)
             tick("channel_eq")
-            d = compare_outputs(got, ref, total_duty(probs[p]["data"]), exact=(m["ch"] != "xlsx"))
+            lossless = m["ch"] != "xlsx" or survives_15_digits(probs[p]["data"])
+            # a workbook cell keeps 15 significant digits: with longer numbers the workbook describes a problem that differs in the
+            # last bit, so targets are compared within 1e-9 of total duty and the (threshold-sensitive) graph payloads not at all
+            d = compare_outputs(got, ref, total_duty(probs[p]["data"]), exact=lossless, graph_tol=(0.011 if lossless else None))
             if d:
                 V("channel_eq", f"{m['ch']}|{d[0]}|{fault_in_force}", step, f"channel {m['ch']} vs plain dict through the service: {d[1]}")
             elif m["exact"]:
@@ -900,7 +913,8 @@ class C16(World):
                         if rk != "ok":
                             V("channel_eq", f"ctor_{ch}|ref_raises|none", step, "run=True constructor succeeded but the plain-dict service raises")
                         else:
-                            dd = compare_outputs(simplify_output(val), ref, total_duty(prob["data"]), exact=(ch != "xlsx"))
+                            lossless = ch != "xlsx" or survives_15_digits(prob["data"])
+                            dd = compare_outputs(simplify_output(val), ref, total_duty(prob["data"]), exact=lossless, graph_tol=(0.011 if lossless else None))
                             if dd:
                                 V("channel_eq", f"ctor_{ch}|{dd[0]}|none", step, f"run=True constructor via {ch} vs plain dict: {dd[1]}")
                         if out_dir:
